@@ -119,14 +119,7 @@ def run(rep, tier):
     r.shuffle(cases)
     # invariant and setUp cases first (they carry the runner-level statements), then the rest within the budget
     cases.sort(key=lambda c: c["family"] not in ("invariant", "setup"))
-    n_core = 8 if tier == "quick" else 60
-    t0 = time.time()
-    res = l3.run_pool(worker, cases[:n_core], timeout=200, total_timeout=600)
-    budget = (60 if tier == "quick" else 900) - (time.time() - t0)
-    if budget > 8 and cases[n_core:]:
-        res += l3.run_pool(worker, cases[n_core:], timeout=150, total_timeout=budget)
-    else:
-        res += [("skipped", None)] * len(cases[n_core:])
+    res = l3.run_pool(worker, cases, timeout=240, total_timeout=420 if tier == "quick" else 1100)
     rep.coverage["l3_tasks"] = [[c["family"], json.dumps(c["params"]), " ".join(c["options"]), st, (v or {}).get("seconds") if st == "ok" else None] for c, (st, v) in zip(cases, res)]
     model_calls, model_expect = [], []
     for case, (st, val) in zip(cases, res):
